@@ -204,6 +204,47 @@ def _case(arg):
                 res.violation("query:empty-grid-malformed", f"empty local grid has points shape {np.asarray(loc.points).shape}", case)
             if not np.array_equal(np.asarray(loc.center), np.asarray(cc)):
                 res.violation("query:center-not-echoed", "centre is not echoed", case)
+    # argument forms of the centre (added after seeded change C11-A of wave 12 was missed): a centre with whole-number
+    # coordinates given as an integer array, a list, a tuple or a Python int answers exactly like the same centre in floats
+    ic = np.round(pr.mean(axis=0)).astype(int) + np.array([1, -2, 3])[:dim]
+    fc = ic.astype(float)
+    forms = [("int64", ic.astype(np.int64)), ("int32", ic.astype(np.int32)), ("list", [int(v) for v in ic]), ("tuple", tuple(int(v) for v in ic))]
+    if dim == 1:
+        forms = [("int64", np.int64(ic[0])), ("int32", np.int32(ic[0])), ("int", int(ic[0]))]
+    for r in (radii[1], radii[2], radii[-2]):
+        try:
+            with warnings.catch_warnings():
+                warnings.simplefilter("ignore")
+                base = g.get_localgrid(np.float64(fc[0]) if dim == 1 else fc, r)
+        except Exception as exc:
+            res.violation(f"query:raised:{type(exc).__name__}", f"get_localgrid(whole-number centre, radius {r}): {exc}", dict(case0, centre="whole", radius=r))
+            continue
+        ref, ties = brute(gp, w, rv, fc, r)
+        bi = np.asarray(base.indices)
+        bp = np.asarray(base.points, dtype=float).reshape(len(bi), -1) if len(bi) else np.zeros((0, dim))
+        res.count()
+        if not ties:
+            res.nontrivial()
+            if sorted((int(i), tuple(np.round(q, 9) + 0.0)) for i, q in zip(bi, bp)) != ref:
+                res.violation("query:wrong-images", f"dim={dim} lattice={lname} wrap={wrap}: whole-number centre {fc.tolist()} radius {r}: "
+                              f"{len(bi)} images, brute force finds {len(ref)}", dict(case0, centre="whole", radius=r))
+        for fname, cform in forms:
+            res.count()
+            case = dict(case0, centre=f"whole:{fname}", radius=r)
+            try:
+                with warnings.catch_warnings():
+                    warnings.simplefilter("ignore")
+                    loc = g.get_localgrid(cform, r)
+            except Exception as exc:
+                res.violation(f"centre-form:raised:{type(exc).__name__}", f"get_localgrid(centre as {fname} {ic.tolist()}, radius {r}) raised "
+                              f"{type(exc).__name__}: {exc}; the same centre in floats is answered", case)
+                continue
+            res.nontrivial()
+            li = np.asarray(loc.indices)
+            lp = np.asarray(loc.points, dtype=float).reshape(len(li), -1) if len(li) else np.zeros((0, dim))
+            if not np.array_equal(li, bi) or lp.shape != bp.shape or not np.array_equal(lp, bp) or not np.array_equal(np.asarray(loc.weights), np.asarray(base.weights)):
+                res.violation("centre-form:differs-from-float-centre", f"dim={dim} lattice={lname} wrap={wrap}: centre {ic.tolist()} given as {fname} "
+                              f"returns {len(li)} images, the same centre in floats {len(bi)} (or other positions)", case)
     # three-step history (added after seeded change C11-B was missed): the parent has answered queries
     # (its neighbour tree exists), a selection of it must answer for ITS OWN points
     for iname, index in (("slice", slice(2, None)), ("array", np.array([4, 0, 3]))):
